@@ -132,6 +132,14 @@ pub fn gen(tier: &str, seed: u64, outdir: &str) {
             let y = data_class(&mut r, cy, n);
             push_cov(&mut cs, &d, &y, CLASS_NAMES[class as usize]);
         }
+        // the same kinds of data at very small and very large scales (variance scales quadratically: 2^-60 .. 2^-400 and back)
+        if n >= 1 {
+            let c = (2.0f64).powi(*r.pick(&[-200, -100, -40, -30, 30, 100, 200]));
+            let k1 = r.below(7); let d: Vec<f64> = data_class(&mut r, k1, n).iter().map(|v| v * c).collect();
+            push_stats(&mut cs, &mut r, &d, "scaled");
+            let k2 = r.below(7); let y: Vec<f64> = data_class(&mut r, k2, n).iter().map(|v| v * c).collect();
+            push_cov(&mut cs, &d, &y, "scaled");
+        }
         let d = reals(&mut r, n);
         push_stats(&mut cs, &mut r, &d, "real");
         let y = reals(&mut r, n);
@@ -265,6 +273,22 @@ pub fn oracle(tier: &str, seed: u64) -> (u64, Vec<Finding>) {
         let kappa_x = if sd_x > 0.0 { mean_x.abs() / sd_x } else { 0.0 };
         let mean_y = ratio(ex_y.s1, nn * 1024);
         let kappa_y = if sd_y > 0.0 { mean_y.abs() / sd_y } else { 0.0 };
+        // --- exact scaling by a power of two: every operation of every algorithm commutes with it (no rounding changes, far from
+        //     overflow/underflow), so mean scales by c, std by |c|, variances and covariances by c^2, bit for bit, at EVERY scale
+        if it % 3 == 0 && n >= 2 {
+            let k = *r.pick(&[-200i32, -100, -40, -30, -12, 30, 100, 200]);
+            let c = (2.0f64).powi(k); let c2 = (2.0f64).powi(2 * k);
+            let xs: Vec<f64> = x.iter().map(|v| v * c).collect(); let ys: Vec<f64> = y.iter().map(|v| v * c).collect();
+            let inp = format!("x={} scaled by 2^{}", json_floats(&x), k);
+            crumb(&inp); tried += 1;
+            let same = |a: f64, b: f64| a == b || (a.is_nan() && b.is_nan());
+            for (name, a, b) in [("mean", mean(&xs), mean(&x) * c), ("welford_mean", welford_mean(&xs), welford_mean(&x) * c),
+                                 ("var", var(&xs), var(&x) * c2), ("sample_var", sample_var(&xs), sample_var(&x) * c2),
+                                 ("std", std(&xs), std(&x) * c), ("sample_std", sample_std(&xs), sample_std(&x) * c),
+                                 ("covariance", covariance(&xs, &ys), covariance(&x, &y) * c2), ("sample_covariance", sample_covariance(&xs, &ys), sample_covariance(&x, &y) * c2)] {
+                if !same(a, b) { out.push(Finding { class: format!("{}:not-scale-equivariant", name), what: format!("{}(2^{} x) = {:e} but 2^({}) * {}(x) = {:e}: scaling the data by a power of two must scale the statistic exactly (variance quadratically)", name, k, a, if name.contains("var") { 2 * k } else { k }, name, b), input: inp.clone() }); }
+            }
+        }
         // --- means
         crumb(&input);
         for (name, got) in [("mean", mean(&x)), ("welford_mean", welford_mean(&x)), ("Vector::mean", Vector::new(x.clone()).mean())] {
